@@ -106,10 +106,15 @@ impl Identifier {
     { unimplemented!() }
 }
 
+pub uninterp spec fn limit_ok(m: MaxTopicSize, c: &SystemConfig) -> bool;
+pub uninterp spec fn limit_value(m: MaxTopicSize, c: &SystemConfig) -> MaxTopicSize;
 // --- Topic: construction, validation and persistence are other subsystems; persistence returns Ok (fault scope of C06) ---
 impl Topic {
+    // Topic::get_max_topic_size — ASSUMED here (verdict and value uninterpreted), PROVED in units topic_limit and wiring
+    // ([C15.valid.*]): rejected iff a custom limit is smaller than one segment, the server default resolves to the configured limit
     #[verifier::external_body]
     pub fn get_max_topic_size(max_topic_size: MaxTopicSize, config: &SystemConfig) -> (r: Result<MaxTopicSize, IggyError>)
+        ensures r is Ok <==> limit_ok(max_topic_size, config), r matches Ok(v) ==> v == limit_value(max_topic_size, config),
     { unimplemented!() }
     #[verifier::external_body]
     pub fn get_message_expiry(message_expiry: IggyExpiry, config: &SystemConfig) -> (r: IggyExpiry)
